@@ -499,6 +499,9 @@ def _replace_nodes(source: str, replacements: Mapping[ast.AST, ast.AST | str]) -
     if not core.is_valid_python(new_source):
         return source
 
+    if core.is_compilable(source) and not core.is_compilable(new_source):
+        return source  # For example a return that ended up outside of its function
+
     return new_source
 
 
@@ -750,6 +753,9 @@ def _apply_rewrites(source: str, rewrites: Sequence[Tuple[Any, Callable]]) -> st
 
     if not core.is_valid_python(new_source):
         return source
+
+    if core.is_compilable(source) and not core.is_compilable(new_source):
+        return source  # For example a return that ended up outside of its function
 
     return new_source
 
